@@ -657,6 +657,7 @@ let valueapi_suite () =
 (* ---------------------------------------------------------------- suite: codecrt *)
 let rec take_n k l = if k <= 0 then [] else match l with [] -> [] | x :: r -> x :: take_n (k - 1) r
 let codecrt_suite () =
+  let ign_pending = ref None in
   let idx = ref 0 in
   let pending = ref None in
   let last = ref None in
@@ -722,6 +723,7 @@ let codecrt_suite () =
            | 0 -> ()                                                   (* not a legal perturbation: not judged *)
            | 1 -> emit (Printf.sprintf "S %d 1 C02ign -" i)
            | _ -> emit (Printf.sprintf "S %d 0 C02ign -" i));
+          ign_pending := Some (i, b, b');
           last := None;
           pending := None
         | Some (`Msg tm) ->
@@ -750,6 +752,17 @@ let codecrt_suite () =
           let quoted_bad = List.exists (function TVal (ty, AvQuoted q) -> not (av_wf ty (AvQuoted q)) | _ -> false) tm.t_attrs in
           last := Some (i, n >= 5 && String.sub line 2 2 = "OK", (if wf then `Judge else if quoted_bad then `Known else `Skip));
           pending := None
+      end else if n >= 1 && line.[0] = 'J' && !ign_pending <> None then begin
+        (match !ign_pending with
+         | Some (i, b, b') ->
+           (* the decoded VALUES compared by the implementation's own equality, and their re-encoding *)
+           let deep = List.mem "deep=1" (split_sp (String.sub line 2 (n - 2))) in
+           (match int_of_n (monitor_C02ign b b' deep) with
+            | 0 -> ()
+            | 1 -> emit (Printf.sprintf "S %d 1 C02ign -" i)
+            | _ -> emit (Printf.sprintf "S %d 0 C02ign decoded-values-or-reencoding-differ" i))
+         | None -> ());
+        ign_pending := None
       end else if n >= 1 && line.[0] = 'J' then begin
         match !last with
         | Some (i, encoded, mode) ->
